@@ -400,15 +400,15 @@ func run(r *core.Run) {
 	}
 
 	// ---- pass 1: small bounds
-	d1("D1a_format", "the 2048 binary16 values whose 5 low mantissa bits are zero (1-5-5 minifloat, both signs, incl. +-0, +-Inf)", func(h int64) bool { return h&31 == 0 })
 	phase("texts_full_alphabet_a", func() bool { return rn.texts("full", alphaFull, 1, 4) })
-	d4phase("D4a_format", "the doubles nearest to 10^k (k=-323..308) and equal to 2^k (k=-1074..1023), max double, 1e21, 1e-6, 1e-7", func(x float64) bool { return centres[math.Float64bits(x)] })
 	d2(4)
+	d1("D1a_format", "the 2048 binary16 values whose 5 low mantissa bits are zero (1-5-5 minifloat, both signs, incl. +-0, +-Inf)", func(h int64) bool { return h&31 == 0 })
 	phase("parseInt_radix", func() bool { return rn.parseIntPhase(d4) })
+	d4phase("D4a_format", "the doubles nearest to 10^k (k=-323..308) and equal to 2^k (k=-1074..1023), max double, 1e21, 1e-6, 1e-7", func(x float64) bool { return centres[math.Float64bits(x)] })
 	// texts derived from x: from the 1-5-5 minifloat subset of D1 and the centres 10^k, 2^k (thorough: the rest in pass 2)
 	derivedD1 := func(name, which string, sel func(h int64) bool) {
 		phase(name, func() bool {
-			ok := r.Parallel(1<<15, 64, func(w int, lo, hi int64) {
+			ok := r.Parallel(1<<15, 32, func(w int, lo, hi int64) {
 				for h := lo; h < hi; h++ {
 					x := half(uint16(h))
 					if sel(h) && x > 0 && !math.IsInf(x, 0) && !math.IsNaN(x) {
@@ -424,7 +424,7 @@ func run(r *core.Run) {
 	}
 	derivedD4 := func(name, which string, dd []float64) {
 		phase(name, func() bool {
-			ok := r.Parallel(int64(len(dd)), 16, func(w int, lo, hi int64) {
+			ok := r.Parallel(int64(len(dd)), 4, func(w int, lo, hi int64) {
 				for i := lo; i < hi; i++ {
 					rn.derivedFor(rn.env(w), dd[i], i)
 				}
